@@ -257,6 +257,54 @@ def u_fit_names(root):
     return eng
 
 
+
+# ------------------------------------------------------------------ Nexus.add_dependency: a rejected (cycle-closing) call is rolled back exactly
+def u_add_dependency(root):
+    from .c03 import Part, Fn, log, fx
+    eng = engine(root, ["kafe2/core/fitters/nexus.py"], {}, [])
+    eng.lib["set"] = lambda e, st, a, kw, node: VTuple([x for q_, x in enumerate(a[0].items) if all(x is not y for y in a[0].items[:q_])])          # distinct objects, by identity
+    eng.lib["list"] = lambda e, st, a, kw, node: VTuple(list(a[0].items))
+    eng.lib["isinstance"] = lambda e, st, a, kw, node: VBool(z3.BoolVal(isinstance(a[0], VTuple)))
+    for existing, depends_on, cycle in ((("a",), ("a", "h"), True), (("a",), ("h", "a"), True), (("a",), ("h",), True), (("a", "b"), ("b", "h", "a"), True), (("a",), ("b", "a"), False), ((), ("a",), False)):
+        nodes = {n_: Part("node_" + n_) for n_ in ("a", "b", "h")}
+        prev = VTuple([nodes[n_] for n_ in existing])
+        target = Part("node_f", {"get_children": Fn(lambda e, st, a, kw, prev=prev: VTuple(list(prev.items))), "add_child": Fn(lambda e, st, a, kw: VNone()), "remove_child": Fn(lambda e, st, a, kw: VNone())})
+        mk(eng, "Nexus", "get", result=lambda vw, nodes=nodes, target=target: target if vw.args["node_name"].s == "f" else nodes.get(vw.args["node_name"].s, VNone()))
+
+        def checker(e, st, a, kw, cycle=cycle):
+            class Run(V):
+                def vattr(self_, e_, st_, name):
+                    if name == "run":
+                        def run(e2, st2, a2, kw2):
+                            log(st2, "cycle_check")
+                            if cycle:
+                                raise PyRaise("ValueError")
+                            return VNone()
+                        return Fn(run)
+            return Run()
+        eng.consts = {"NodeCycleChecker": Fn(checker)}
+        c = Contract("Nexus", "add_dependency")
+
+        def post(vw, existing=existing, depends_on=depends_on, cycle=cycle, nodes=nodes, prev=prev):
+            trace = fx(vw)
+            added = [x[3][0] for x in trace if x[0] == "call" and x[1] == "node_f" and x[2] == "add_child"]
+            removed = [x[3][0] for x in trace if x[0] == "call" and x[1] == "node_f" and x[2] == "remove_child"]
+            restored = [x for x in trace if x[0] == "set" and x[1] == "node_f" and x[2] == "_children"]
+            out = [("every named node is added as a dependency, in order, before the cycle check", z3.BoolVal([a_.name for a_ in added] == ["node_" + d_ for d_ in depends_on] and [x[0] for x in trace if x[0] in ("cycle_check",)] == ["cycle_check"]))]
+            if cycle:
+                new_ones = {d_ for d_ in depends_on if d_ not in existing}
+                out += [("a cycle-closing call raises", z3.BoolVal(vw.flow == "raise")),
+                        ("exactly the dependencies that are NEW are removed again, each once; a dependency that existed before the call is kept", z3.BoolVal(sorted(r_.name for r_ in removed) == sorted("node_" + d_ for d_ in new_ones))),
+                        ("the child list is the one from before the call", z3.BoolVal(len(restored) == 1 and isinstance(restored[0][3], VTuple) and [x.name for x in restored[0][3].items] == ["node_" + d_ for d_ in existing]))]
+            else:
+                out += [("accepted", z3.BoolVal(vw.flow != "raise")), ("nothing is removed or restored", z3.BoolVal(not removed and not restored))]
+            return out
+        c.ensures.append(post)
+        eng.verify("Nexus", "add_dependency", None, lambda e, st, me_, depends_on=depends_on: {"name": VStr("f"), "depends_on": VTuple([VStr(d_) for d_ in depends_on])}, contract=c,
+                   tag=f"(existing {list(existing)}, depends_on {list(depends_on)}, {'closes a cycle' if cycle else 'acyclic'})")
+    return eng
+
+
 def prefixed(prefix, units):
     return [Unit(f"{prefix} {u.name} (shared)", u.build, u.budget) for u in units]
 
@@ -265,6 +313,9 @@ def units(root):
     shared_c12 = [u for u in c12.units(root) if any(k in u.name for k in ("set_bins", "rebin", "fill("))]
     shared_c16 = [u for u in c16.units(root) if u.name in ("ConfidenceLevel setters", "ConfidenceLevel.__init__")]
     shared_c02 = [u for u in c02.units(root) if u.name in ("SimpleGaussianError setters", "IndexedContainer mutators")]
+    from . import c14
+    shared_c14 = [u for u in c14.units(root) if u.name in ("GaussianMatrixParameterConstraint.__init__", "MatrixGaussianError.__init__")]
     return [Unit("SimpleGaussianError.__init__ guards", u_error_ctor_guards), Unit("MatrixGaussianError correlation-matrix guards", u_matrix_error_guards),
             Unit("DataContainerBase._add_error_object", u_add_error_object), Unit("CostFunction_NegLogLikelihood.is_data_compatible", u_poisson_compat),
-            Unit("XYContainer._find_axis_raise", u_find_axis), Unit("NexusFitter.set_fit_parameter_values", u_set_fit_parameter_values), Unit("FitBase constraint / limit names", u_fit_names)] + prefixed("HistContainer", shared_c12) + prefixed("", shared_c16) + prefixed("", shared_c02)
+            Unit("XYContainer._find_axis_raise", u_find_axis), Unit("NexusFitter.set_fit_parameter_values", u_set_fit_parameter_values), Unit("FitBase constraint / limit names", u_fit_names),
+            Unit("Nexus.add_dependency rollback", u_add_dependency, bounded="dependency lists of length <= 3 over 3 nodes, with / without dependencies that existed before; node objects and the cycle checker are recording stand-ins")] + prefixed("HistContainer", shared_c12) + prefixed("", shared_c16) + prefixed("", shared_c02) + prefixed("", shared_c14)
